@@ -274,6 +274,12 @@ class _Relabel:
     def undecided(self, rule, *a, **kw):
         return self._ctx.undecided(self._map.get(rule, rule), *a, **kw)
 
+    def floor(self, rule, *a, **kw):
+        return self._ctx.floor(self._map.get(rule, rule), *a, **kw)
+
+    def count(self, rule):
+        return self._ctx.count(self._map.get(rule, rule))
+
 
 def check_data_and_ll(ctx):
     R = "C07-DATA"
@@ -368,5 +374,12 @@ def run(ctx):
     check_priors(ctx)
     check_pack_readers(ctx)
     check_data_and_ll(ctx)
+    from .C05 import check_feed
+    ctx.rule("C07-FEED", "on every path into the kernel - including fall-back paths - prior samples are packed with units=<the helper's internal units> (shared with C05-FEED).")
+    check_feed(_Relabel(ctx, {"C05-FEED": "C07-FEED"}))
+    from .C15 import check_ivar
+    ctx.rule("C07-IVAR", "inverse variances are formed from the error quantity itself, so they scale with the square of the unit; nothing unit-less is mixed into the stripped "
+                         "variance (shared with C15-IVAR).")
+    check_ivar(_Relabel(ctx, {"C15-IVAR": "C07-IVAR"}))
     ctx.assume("astropy Quantity.to_value / Unit.to perform exact unit conversion; a quantity's .value is expressed in its .unit")
     ctx.assume("the Jacobian constant n_epochs * ln(unit ratio) and twin-run numerical equality are not decided")
